@@ -5,6 +5,7 @@
 package opspace
 
 import (
+	"sync"
 	"encoding/json"
 	"fmt"
 	"strings"
@@ -201,14 +202,21 @@ type node struct {
 	faulty int
 }
 
+var (
+	selfCheckOnce sync.Once
+	selfCheckN    int
+	selfCheckErr  error
+)
+
 // Run explores this shard's part of the space.
 func (cfg *Config) Run(c *core.Ctx) {
 	if c.Shard == 0 {
-		// harness self-validation: the simulated API server must agree with client-go's object tracker
-		if n, err := hx.SimSelfCheck(); err != nil {
-			c.NotExhaustive("simulated API server disagrees with client-go's object tracker: %v", err)
+		// harness self-validation (once per process): the simulated API server must agree with client-go's object tracker
+		selfCheckOnce.Do(func() { selfCheckN, selfCheckErr = hx.SimSelfCheck() })
+		if selfCheckErr != nil {
+			c.NotExhaustive("simulated API server disagrees with client-go's object tracker: %v", selfCheckErr)
 		} else {
-			c.SetExtra("sim_fidelity_sequences_agreeing_with_client_go_tracker", n)
+			c.SetExtra("sim_fidelity_sequences_agreeing_with_client_go_tracker", selfCheckN)
 		}
 	}
 	c.Bound("max_depth", fmt.Sprint(cfg.MaxDepth))
